@@ -915,6 +915,14 @@ func (e *Exec) lookupLocal(name string, b *ssa.BasicBlock, st *State) (Value, bo
 			}
 		}
 		if found != nil {
+			// the variable lives in a cell (captured or address-taken) and the reference we found
+			// is a load of it made earlier: its value now is what the cell holds now
+			if u, isLoad := found.(*ssa.UnOp); isLoad && !isAddr && u.Op == token.MUL {
+				switch u.X.(type) {
+				case *ssa.Alloc, *ssa.FreeVar:
+					found, isAddr = u.X, true
+				}
+			}
 			v := e.val(found)
 			if isAddr {
 				if e.cellIsFinal(found) {
